@@ -51,6 +51,8 @@ class Parser(ABC):
         self.token_list: list[tuple[int, str, pp.ParseResults]] = []
         for line_number, line in self.sanitized_program:
             try:
+                # keep tab characters (pyparsing would expand them to spaces, also inside string literals)
+                self._pattern_line.parse_with_tabs()
                 self.token_list.append(
                     (line_number, line, self._pattern_line.parseString(line))
                 )
